@@ -10,6 +10,7 @@ CONSTANTS
   CodeDen = {}
   Dims = 2
   Kinds <- KindsAll
+  HalfLimits = FALSE
   Uneven = "short"
 VIEW View
 INVARIANTS TypeOKT PartsOKT PartitionT CompleteT DevOKT NoNonPosDrawn
